@@ -24,7 +24,7 @@ class C02(SweepProp):
         'stagnant-bypass or conv_approx regions are excluded from the '
         'whole-sweep core balance',
         'user-power inputs only']
-    profile = {'const_prob': 1.0,
+    profile = {'const_prob': 1.0, 'near_twin_prob': 0.2,
                'n_ring_core': [1, 2, 2, 2, 3],
                'hole_prob': 0.35,
                'gap_models': ['flow', 'flow', 'flow', 'none', 'no_flow',
